@@ -16,3 +16,14 @@ package middleware
 //@   ensures [reject-not-current] delta(CurrentID) >= 1 && urlParam(r, "awsrequestid") != firstret(CurrentID) ==> delta(ForwardToHandler) == 0 && delta(InvalidRequestID) == 1
 //@   ensures [compares-with-current] urlParam(r, "awsrequestid") != "" ==> delta(CurrentID) >= 1
 //@   ensures [otherwise-forwards] urlParam(r, "awsrequestid") != "" && urlParam(r, "awsrequestid") == firstret(CurrentID) ==> delta(ForwardToHandler) >= 1
+
+// C13: every call after register must carry a well-formed identifier
+//@ event AgentId403Missing = call rendering.RenderForbiddenWithTypeMsg when a2 == handler.ErrAgentIdentifierMissing
+//@ event AgentId403Invalid = call rendering.RenderForbiddenWithTypeMsg when a2 == handler.ErrAgentIdentifierInvalid
+//@ event UuidParseFailed = ret uuid.Parse when r1 != nil
+//@ event UuidParseOK = ret uuid.Parse when r1 == nil
+//@ func AgentUniqueIdentifierHeaderValidator$1
+//@   ensures [missing-403] hdr(old(r.Header), handler.LambdaAgentIdentifier) == "" ==> delta(AgentId403Missing) == 1 && delta(ForwardToHandler) == 0
+//@   ensures [not-forwarded-means-403] delta(ForwardToHandler) == 0 ==> delta(AgentId403Missing) + delta(AgentId403Invalid) == 1
+//@   ensures [invalid-403] delta(ForwardToHandler) == 0 && hdr(old(r.Header), handler.LambdaAgentIdentifier) != "" ==> delta(AgentId403Invalid) == 1 && delta(UuidParseFailed) == 1
+//@   ensures [forwarded-only-after-successful-parse] delta(ForwardToHandler) >= 1 ==> hdr(old(r.Header), handler.LambdaAgentIdentifier) != "" && delta(UuidParseOK) >= 1 && first(UuidParseOK) < first(ForwardToHandler)
